@@ -490,7 +490,9 @@ def replaySpec (r : Req) (perThread : List (List (Nat × Nat × Nat × Nat))) (i
     let lastEnd := row.foldl (fun m (_, b, _, _) => max m b) 0
     st := stepRound o T prec st ⟨durs, lastEnd - initial⟩
   if errs.isEmpty ∧ complete ∧ !(st.stopped || !continues o st) ∧ K < 20000 then
-    errs := errs ++ ["[C04] sampling stopped although fewer than sample_count samples were recorded or min_time had not elapsed and max_time was not reached"]
+    errs := errs ++ [(match st.mode with
+      | .tune _ => "[C19][C04] the run ended while still tuning: no round had exceeded 100 x precision and max_time had not been reached"
+      | _ => "[C04] sampling stopped although fewer than sample_count samples were recorded or min_time had not elapsed and max_time was not reached")]
   return errs
 
 def handle (args : List String) (obs : String) : Option Reply := do
